@@ -70,9 +70,12 @@ Ev(w, t) ==
             IF (\A i \in 1..Len(a) : HasT(w, a[i], SigOf(t.op).args[i])) /\ InDom(w, t.op, a)
             THEN [ok |-> TRUE, r |-> DefW(w, t.op, a)] ELSE Undef
 
+(* A Word (unsigned) is observed through its signed reading -- the harness prints it as an SInt --, so a Word      *)
+(* result belongs to the family only when the two readings coincide on a 32-bit platform.                           *)
+Observable(t, r) == \A i \in 1..Len(r) : SigOf(t.op).res[i] = "Word" => Lt(r[i], Pow2Z(31))
 (* the family: one value whatever the word size *)
-Member(t) == /\ WellTyped(t)
-             /\ LET a == Ev(32, t)  b == Ev(64, t) IN a.ok /\ b.ok /\ a.r = b.r
+Member(t) == /\ WellTyped(t) /\ ~IsLeaf(t)
+             /\ LET a == Ev(32, t)  b == Ev(64, t) IN a.ok /\ b.ok /\ a.r = b.r /\ Observable(t, a.r)
 Value(t)  == Ev(32, t).r
 
 (* Operations the Java run time does not implement (foamj/Math.java: `throw new RuntimeException()`, marked          *)
